@@ -109,6 +109,7 @@ class Kernel:
         self.root = SimProcessState(self, "root", None)
         self.procs = {self.root.pid: self.root}
         self.current = None
+        self.timeout_allowed = lambda a: True      # a scenario may freeze some timed waits (e.g. idle time-outs after a given point)
         self.choices = []                 # the schedule actually taken
         self.kill_budget = 0
         self.killable = lambda p: False
@@ -174,7 +175,7 @@ class Kernel:
             ok = True if en is None else bool(en())
             if ok:
                 c.append(("run", a))
-            elif ct:
+            elif ct and self.timeout_allowed(a):
                 c.append(("timeout", a))
         return c
 
